@@ -644,7 +644,7 @@ def replay_pdhg(sp, r, insts, states):
                     n += 1
                     if xr is not xa:
                         viol(r, "held_solution", "L2ConstrainedMinimization", inst, "run() does not return the caller's x array")
-                    if np.allclose(fl(s0["u"]), 0) and not (app.alg.iter in want and close(xr, fl(mfin["x"])) and close(app.alg.u, fl(mfin["u"]))):
+                    if core.allclose(fl(s0["u"]), 0) and not (app.alg.iter in want and close(xr, fl(mfin["x"])) and close(app.alg.u, fl(mfin["u"]))):
                         viol(r, "state", "L2ConstrainedMinimization", inst, "g=%s a=%s y=%s eps=%s tau=%s: run() stopped after %d updates at (x, u) = (%s, %s), model after as many updates (%s, %s)"
                              % (inst["g"], a, y, eps, tau, app.alg.iter, xr, app.alg.u, fl(mfin["x"]), fl(mfin["u"])))
         else:
